@@ -35,6 +35,10 @@ TECHNIQUE = 'PRNG token-soup fuzzing + bounded-exhaustive argument-shape enumera
 DOCUMENTED_FATAL = ("no environment for '$$'", 'is not an EquEnv')
 
 
+LANG_ARGS = ['{\\foreignlanguage{french}{e}}', '\\selectlanguage{german}', '{\\selectlanguage{german}e}',
+             '{\\begin{otherlanguage}{german}e\\end{otherlanguage}}']
+
+
 def execute(src, kw, ml, thresh, limit=10):
     """returns ('ok', result, stderr) | ('exception', bucket, text) | ('exit', stderr) | ('timeout',)"""
     import io
@@ -160,6 +164,21 @@ def run_shard(ctx):
             record(ctx, src, kw, ml, None, 'shape', verdict(src, kw, ml, None))
             if ctx.too_many():
                 return
+    # arguments that begin with a language switch, multi-language mode (seeded change C07-C)
+    for head, args, name in targets:
+        for k in range(len(args)):
+            if args[k] not in 'AO':
+                continue
+            for sw in LANG_ARGS:
+                idx += 1
+                if idx % ctx.nshards != ctx.shard:
+                    continue
+                a = ''.join((sw if args[j] == 'A' else '[' + sw + ']') if j == k else ('{x}' if args[j] == 'A' else '') for j in range(len(args)))
+                src = 'A ' + head + a + ' b'
+                kw = dict(lang='en', pack='*,cleveref')
+                record(ctx, src, kw, True, None, 'language-switch-argument', verdict(src, kw, True, None))
+                if ctx.too_many():
+                    return
     for src in soup.keyval_shapes(random.Random(ctx.seed * 31 + 5), full3=not quick):
         idx += 1
         if idx % ctx.nshards != ctx.shard:
